@@ -20,7 +20,7 @@ PROP = "C13"
 GEN = "DataGen.tla"
 
 # name -> (cfg, workers, timeout)
-QUICK_BFS = [("gen_q", 8, 900), ("life_q", 4, 600), ("lifer_q", 2, 600), ("ab_q", 4, 600), ("kinds_q", 2, 600)]
+QUICK_BFS = [("gen_q", 16, 900), ("life_q", 8, 900), ("ab_q", 4, 900), ("kinds_q", 2, 900), ("lifer_q", 2, 900)]
 THOROUGH_BFS = [("gen_t23", 8, 5000), ("gen_t3", 8, 5000), ("gen_t4", 8, 5000), ("life_t", 8, 5000),
                 ("lifer_t", 4, 5000), ("flat_t", 4, 5000)]
 THOROUGH_MC = [("alg_t", 8, 5000)]
@@ -368,6 +368,8 @@ def replay(path, seed):
             pass
         if adrv:
             env = {"ASAN_OPTIONS": "detect_leaks=1:exitcode=66", "UBSAN_OPTIONS": "halt_on_error=1:exitcode=67"}
+            if os.path.exists("/usr/bin/llvm-symbolizer"):
+                env["ASAN_SYMBOLIZER_PATH"] = "/usr/bin/llvm-symbolizer"
             rc, so, se = sh([adrv, path], timeout=900, env=env)
             print(so[-2000:])
             print(se[-6000:])
